@@ -17,8 +17,9 @@
        the closure, `to_str().unwrap_or_default()`, `file_type().ok()`) / NotFound / other error;
      * fs_cmd_archive: `full_path.splitn(2, "!/")`, `ends_with('!')`, `uri[0]`, `uri[1]`,
        `&uri[0][..uri[0].len() - 1]` (usize subtraction + str slice at a char boundary), `archive_path.exists()`,
-       `archive_is_supported_filename`, `File::open(..)?` (single volume only; the multi volume branch drops the
-       parts that fail to open), `list_archive_contents_cached(..)?`, `files.len() == 1 && files[0] == "data"`,
+       `archive_is_supported_filename`, `open_regular_file(..)?` (metadata().is_file() then File::open: anything
+       but a regular file is refused and never opened - a named pipe would block; single volume only; the multi
+       volume branch drops the parts that fail to open), `list_archive_contents_cached(..)?`, `files.len() == 1 && files[0] == "data"`,
        `archive_contents_read_dir(..)` (count), `archive_contents_metadata(..)` Ok / Err, the constant times.
    Not transcribed (trusted, results are oracle inputs): serde_json, the OS calls, utils/unzip.rs. *)
 From Coq Require Import List NArith ZArith Bool Ascii String.
@@ -64,7 +65,7 @@ Record fs_orc := {
   fo_exists : bool;                 (* archive_path.exists() *)
   fo_supported : bool;              (* archive_is_supported_filename(&archive_path) *)
   fo_multi : bool;                  (* is_part_of_multi_volume_archive(&archive_path) *)
-  fo_open_ok : bool;                (* std::fs::File::open(&archive_path) is Ok *)
+  fo_open_ok : bool;                (* open_regular_file(&archive_path) is Ok (a regular file that can be opened) *)
   fo_list : option (list string);   (* list_archive_contents_cached(..): the member names, None = Err *)
   fo_rd_count : N;                  (* archive_contents_read_dir(&files, path_within).count() *)
   fo_ameta : option (N * N)         (* archive_contents_metadata(&files, path_within): (type code, size), None = Err *)
@@ -177,7 +178,7 @@ Definition fs_cmd_archive (f : fs_orc) : res (option fs_value) :=
    | Some _ =>
        if fo_exists f then
          if fo_supported f then
-           (* multi volume: `flat_map(File::open)` keeps the parts that open; single volume: `File::open(..)?` *)
+           (* multi volume: `flat_map(open_regular_file)` keeps the parts that open; single volume: `open_regular_file(..)?` *)
            if negb (fo_multi f) && negb (fo_open_ok f) then Ok None
            else
              match fo_cmd f with
